@@ -42,14 +42,59 @@ class Ctx:
         for p in ps:
             for w in getattr(p.ex, 'ext_writes', []):
                 s.__dict__.setdefault('all_ext_writes', set()).add(w[1])
+            for st in getattr(p.ex, 'cache_stores', []):
+                s.__dict__.setdefault('all_cache_stores', []).append(st)
         return ps
+
+    def cache_coherence(s):
+        """stores into per-instance / module-level dicts found on the explored paths (memo caches).  A cache is harmless iff what it
+        holds under a key is determined by the key (and, for a per-instance cache, by the other fields of its object): then a later
+        hit returns what a fresh computation would.  Obligations (only if there are stores):
+          depends-only-on-key   every variable the stored value depends on occurs in the key or in the holder's other fields
+          same-key-same-value   two stores (from any two explored configurations) under syntactically equal keys hold equal values
+        A failed obligation needs a native reproduction (history-dependent RESULT, checker of C20); without one it is UNDECIDED."""
+        stores = getattr(s, 'all_cache_stores', [])
+        if not stores: return
+        from ..ir import free_vars, ring_equal
+        def leaves(v):
+            try: return flatten(v)
+            except Exception: return []
+        def names(v): return set(free_vars(*[x for x in leaves(v) if isinstance(x, T)]))
+        bad_dep = []; bad_pair = []
+        by_cache = {}
+        for st in stores:
+            allowed = names(st['key'])
+            h = st.get('holder')
+            if h is not None:
+                for k_, x_ in h.f.items():
+                    if x_ is st['cache']: continue
+                    allowed |= names(x_)
+            extra = sorted(str(n_) for n_ in names(st['value']) - allowed)
+            if extra: bad_dep.append((str(st['tag']), extra[:6]))
+            by_cache.setdefault((str(st['tag']), st.get('contracts')), []).append(st)          # values are comparable only between explorations that abstract the same callees
+        for tag, L in by_cache.items():
+            seen = {}
+            for st in L:
+                kf = tuple(x if not isinstance(x, T) else ('T', x.id) for x in leaves(st['key'])) + (repr([x for x in (st['key'] if isinstance(st['key'], tuple) else (st['key'],)) if isinstance(x, (str, bool, type(None)))]),)
+                vf = leaves(st['value'])
+                if kf in seen:
+                    other = seen[kf]
+                    same = len(other) == len(vf) and all((a is b) or (isinstance(a, T) and isinstance(b, T) and _safe_ring_equal(a, b)) for a, b in zip(other, vf))
+                    if not same: bad_pair.append(tag[0])
+                else: seen[kf] = vf
+        fn = None
+        s.ob("cache.depends-only-on-key", [], blit(not bad_dep), kind='frame', inductive=True, function=fn, found=str(bad_dep)[:400],
+             statement="what a memo cache stores under a key depends only on that key (and on the other fields of the object that owns the cache)")
+        s.ob("cache.same-key-same-value", [], blit(not bad_pair), kind='frame', inductive=True, function=fn, found=str(sorted(set(bad_pair)))[:300],
+             statement="stores under equal keys, from any two explored configurations, hold equal values")
+        s.notes.append(dict(memo_caches=sorted({k_[0] for k_ in by_cache}), stores=len(stores), treatment="a hit returns the stored value (lookup forks on key equality); stored values become external (later writes to them are frame writes)"))
 
     def no_hidden_state(s, statement=None, function=None):
         """frame lemma for properties that relate the results of SEVERAL calls (or quantify over call histories): none of the paths
         explored by this check writes to an object that outlives the call (arguments, self and what they hold, per-instance caches
         created by attr.ib(factory=...), module-level constants)"""
         w = sorted(getattr(s, 'all_ext_writes', set()))
-        s.ob("frame.no-write-to-state-that-outlives-a-call", [], blit(not w), kind='frame', function=function, writes=str(w)[:400],
+        s.ob("frame.no-write-to-state-that-outlives-a-call", [], blit(not w), kind='frame', function=function, writes=str(w)[:400], **frame_meta(w),
              statement=statement or "no explored path writes to its arguments, to self or to module-level state: a call cannot influence a later one")
 
     def requires_obs(s, name, paths):
@@ -58,6 +103,23 @@ class Ctx:
         for pi, p in enumerate(paths):
             for (label, pc, f, meta) in p.ex.requires:
                 s.ob("%s.path%d.requires.%s.%d" % (name, pi, label, n), pc, f, kind='requires', **meta); n += 1
+
+
+def _safe_ring_equal(a, b):
+    try:
+        from ..ir import ring_equal
+        return ring_equal(a, b)
+    except Exception:
+        return False
+
+
+def frame_meta(writes):
+    """a store into a per-instance / module-level dict is a write to state that outlives the call, but by itself it does not contradict
+    a property (a memo keyed by everything the value depends on is harmless): such a refutation needs a native reproduction - results that
+    depend on the call history - and is UNDECIDED without one (same policy as counterexamples to induction).  Every other write to an
+    argument, to self or to a caller's list contradicts `deeply unchanged` directly."""
+    ws = [w if isinstance(w, str) else w[1] for w in writes]
+    return dict(inductive=True) if ws and all(x.startswith('cache store') for x in ws) else {}
 
 
 def returns(paths): return [p for p in paths if p.outcome == 'return']
